@@ -54,6 +54,8 @@ def gen_cases(tier):
             yield ('fmt', v, kind, tier)
     for v in ('M1', 'M2', 1):
         yield ('emptyrow', v)
+    for i in range(0, len(Co.NAMED), 15):
+        yield ('names', i)
     from .c01 import deviations
     for v in ('M3', 2) if q else ('M3', 2, 7):
         devs = list(deviations(SVG_OPTS, 2 if q else 3))
@@ -311,6 +313,11 @@ def run_case(case, acc):
                     kw = dict(base)
                     kw.update(var)
                     one(v, fmt, kw, acc)
+    elif kind == 'names':
+        for nm in sorted(Co.NAMED)[case[1]:case[1] + 15]:
+            for fmt in ('svg', 'eps', 'pdf'):
+                one('M1', fmt, {'dark': nm, 'light': '#010203'}, acc)
+                one('M1', fmt, {'dark': '#fdfcfb', 'light': nm.upper(), 'border': 0}, acc)
     elif kind == 'emptyrow':
         v = case[1]
         found = find_special(v)
